@@ -6,6 +6,11 @@ props = [json.loads(l) for l in open(os.path.join(V, "properties.jsonl"))]
 NOTE = ("trusted: bytes->abstract-block decoder (harness/src/decode.rs), SimFile == spec HostFile semantics, "
         "single-threaded executor (tasks interleave at awaits only); bounded: seeded histories/schedules over geometry families G1-G6, not exhaustive")
 TECH = "TLA+ envelope spec (spec/Qcow2Env.tla) + TLC trace validation of real executions"
+TECHS = {"C13": "TLA+ class enumeration (GenArgs.tla) + Validate.tla decision table + TLC trace validation",
+         "C14": "TLA+ class enumeration and refusal rule (HeaderAccept.tla) + TLC trace validation, process-isolated runs",
+         "C15": "TLA+ transcription of the codecs (Codec.tla) as test-vector generator with expected results",
+         "C19": "TLA+ host-file model (HostFile.tla) as exhaustive sequence generator with expected results, replayed on every backend",
+         "C20": "TLA+ class enumeration (Cli.tla) + TLC judgement of formatted images (Qcow2Format.tla)"}
 C = {
  "C01": ("model_checking", "Every read_at result of seeded sequential histories on the real Qcow2Dev must be a value of the FlatDisk model and have the full length (Inv_C01, Inv_C01len); TLC evaluates them at every step of every recorded execution.", "7 C01"),
  "C02": ("model_checking", "After every successful flush_meta the spec's own qcow2 reader (Qcow2Format.GuestBlock over the abstract host file) must give the FlatDisk content for every guest block (Inv_C02); reopen sweeps with same/different parameters are validated against it.", "7 C02"),
@@ -21,8 +26,11 @@ C = {
  "C12": ("model_checking", "Histories crossing refblock capacity (64-bit refcounts x 512-byte clusters), images with fewer L1 entries than needed, allocations across refblock-slice boundaries; C01-C05 invariants incl. crash branching on those executions.", "7 C12"),
  "C13": ("model_checking", "spec/GenArgs.tla enumerates op x offset class x length class exhaustively; classes are instantiated with concrete u64 values per geometry and device mode; Validate.tla decides the admissible outcome; Inv_C13 forbids modifying requests during rejected calls; sweeps check content is unchanged; panics are violations.", "7 C13"),
  "C14": ("model_checking", "spec/HeaderAccept.tla enumerates structured malformations (field x class: all singles, pairs in the thorough tier) and decides which must be refused; each is applied to an independently built valid image and run in its own process (address-space limit, alarm): Inv_C14open (no panic; unsupported features refused), Inv_C14run (no panic/hang in any later operation), process death and heap use out of proportion are violations.", "7 C14"),
+ "C15": ("model_checking", "spec/Codec.tla transcribes the codecs (L2 standard and compressed descriptors by class and boundary, reserved bits, refcount packing for every width x index x boundary value x background, header/extension/backing-name round trip, guest address split) and TLC prints every vector of the enumerated domain with its expected result; the public meta API is run on each vector (exhaustive over the enumerated finite domains).", "7 C15"),
  "C16": ("model_checking", "Inv_C16 on every backend request event of every recorded execution (offset, length and buffer address modulo block size).", "7 C16"),
  "C17": ("fault_enumeration", "For each history one run per backend request index (read/write/punch/fsync, every third a partial write), one with all requests failing, one with hole punching unsupported; then recovery by repeated flush_meta, sweep, reopen, sweep. TLC: failed calls may or may not have taken effect (set-valued FlatDisk), Inv_C07a/b, Inv_C17 (after recovery Safe and every acknowledged write readable).", "7 C17"),
+ "C19": ("model_checking", "spec/HostFile.tla (the reference host-file model; SimFile implements it) enumerates every request sequence up to depth 2/3 plus random walks, with the expected result of each request and the final file; each is executed on SimFile, Qcow2IoTokio, Qcow2IoSync (buffered and O_DIRECT) and Qcow2IoUring on real files and compared; seeded guest histories are executed on every backend and compared with the SimFile run.", "7 C19"),
+ "C20": ("exploration", "spec/Cli.tla enumerates the class product (raw size x content for convert, size x cluster_bits x refcount_order for format, leaks x shape for check); the freshly built rqcow2 is run under a timeout on an instance of every class: convert round trip must reproduce the zero-padded input with exit 0; format output is decoded and judged by Inv_C09fmt in TLC; Qcow2Dev::check() verdict vs Leaked(image) by Inv_C20.", "7 C20"),
  "C18": ("model_checking", "need_flush_meta() sampled by the executor after every scheduler step; Inv_C18 at every quiescent point with the flag clear (file content = FlatDisk, image safe) on schedules overlapping writers/discarders with flush_meta/shrink_caches; violations count only on accepting (consistently linearized) paths.", "7 C18"),
 }
 checks = []
@@ -30,7 +38,7 @@ for pid, (cat, text, ref) in sorted(C.items()):
     checks.append(dict(property_id=pid, quick_cmd=f"./check {pid} --tier quick", thorough_cmd=f"./check {pid} --tier thorough",
                        evidence_file=f"evidence/{pid}.json", replay_cmd_template=f"./check {pid} --replay {{path}}", engine="tlc-trace",
                        level_claimed=dict(category=cat, text=text, design_ref="DESIGN.md section " + ref),
-                       level_note=NOTE, technique=TECH))
+                       level_note=NOTE, technique=TECHS.get(pid, TECH)))
 hooks = subprocess.run(["git", "-C", "/repo", "log", "--format=%H %s"], capture_output=True, text=True).stdout.splitlines()
 hook_commits = [l.split()[0] for l in hooks if l.split(" ", 1)[1].startswith("verif:")]
 m = {
